@@ -152,6 +152,27 @@ func checkC02(w *World, r *Report) {
 	if r.importObs(w, func(t *Report) { a4(w, t) }, "A-4", "V-10") < 2 {
 		r.Undecided("V-10", "evm-failure", "the EVM failure-handling rules (C05 A-4) matched fewer than 2 constructs")
 	}
+	// V-11: a stake's power never leaves the range the refund conversion is defined on:
+	// power is a signed integer that PowerToAmount converts as unsigned, so slashing
+	// reduces a stake only by an amount of at least one unit that is at most its
+	// power, and a stake whose reduction would be below one unit is forfeited rather
+	// than kept (C14 J-2, the doSlashAll obligations)
+	{
+		tmp := NewReport(r.Prop, r.Tier)
+		j2(w, tmp)
+		n := 0
+		for _, o := range tmp.Obs {
+			if o.Rule == "J-2" && strings.Contains(o.Key, "doSlashAll") {
+				o.Rule = "V-11"
+				o.Key = "V-11:" + strings.TrimPrefix(o.Key, "J-2:")
+				r.Obs = append(r.Obs, o)
+				n++
+			}
+		}
+		if n < 3 {
+			r.Undecided("V-11", "doSlashAll", "the slashing arithmetic rules (C14 J-2) matched fewer than 3 constructs")
+		}
+	}
 	r.Floor("V-1", 14, "writers of value-carrying fields")
 	r.Floor("V-2", 10, "debit/credit pairs")
 	r.Floor("V-3", 4, "sign and sufficiency guards")
